@@ -15,6 +15,7 @@ import (
 	"context"
 	"errors"
 	"fmt"
+	"io/fs"
 	"os"
 	"runtime"
 	"runtime/debug"
@@ -28,6 +29,9 @@ import (
 	"github.com/tetratelabs/wazero"
 	"github.com/tetratelabs/wazero/api"
 	"github.com/tetratelabs/wazero/experimental"
+	experimentalsys "github.com/tetratelabs/wazero/experimental/sys"
+	"github.com/tetratelabs/wazero/experimental/sysfs"
+	"github.com/tetratelabs/wazero/imports/wasi_snapshot_preview1"
 	"github.com/tetratelabs/wazero/sys"
 	"pgregory.net/rapid"
 
@@ -63,7 +67,7 @@ const sectionName = "a" // module name in the name section of binary 0
 // env.block). defStart != "" additionally exports that start function under the default start
 // name "_start".
 func guestBinary(named bool, variant, salt int, defStart string) []byte {
-	m := &wasmenc.Module{Mems: [][]byte{wasmenc.Limits(0, 1, false)}}
+	m := &wasmenc.Module{Mems: [][]byte{wasmenc.Limits(1, 1, false)}}
 	if salt > 0 {
 		m.Customs = []wasmenc.Custom{{Name: "salt", Data: []byte(fmt.Sprint(salt))}}
 	}
@@ -73,6 +77,8 @@ func guestBinary(named bool, variant, salt int, defStart string) []byte {
 		"kill_b":     m.ImportFunc("env", "kill_b", []byte{wasmenc.I32}, nil),
 	}
 	block := m.ImportFunc("env", "block", nil, nil)
+	i32, i64 := wasmenc.I32, wasmenc.I64
+	pathOpen := m.ImportFunc("wasi_snapshot_preview1", "path_open", []byte{i32, i32, i32, i32, i32, i64, i64, i32, i32}, []byte{i32})
 	res := int32(42)
 	if variant > 0 {
 		res = int32(1000 + variant)
@@ -80,6 +86,15 @@ func guestBinary(named bool, variant, salt int, defStart string) []byte {
 	f := m.AddFunc(nil, []byte{wasmenc.I32}, nil, wasmenc.NewB().I32Const(res).Bytes())
 	m.ExportFunc("f", f)
 	m.ExportFunc("wait", m.AddFunc(nil, nil, nil, wasmenc.NewB().Call(block).Bytes()))
+	// open(k): path_open(preopen fd 3, path "f<k>") -> errno; the names sit at k*8 in the data segment
+	var names []byte
+	for k := 0; k < numFiles; k++ {
+		names = append(names, 'f', byte('0'+k), 0, 0, 0, 0, 0, 0)
+	}
+	m.Datas = [][]byte{wasmenc.ActiveData(0, names)}
+	m.ExportFunc("open", m.AddFunc([]byte{i32}, []byte{i32}, nil, wasmenc.NewB().
+		I32Const(3).I32Const(0).LocalGet(0).I32Const(8).Raw(wasmenc.OpI32Mul).I32Const(2).
+		I32Const(0).I64Const(0).I64Const(0).I32Const(0).I32Const(1024).Call(pathOpen).Bytes()))
 	for _, name := range startNames {
 		sp := startSpec[name]
 		var body []byte
@@ -115,6 +130,10 @@ var (
 	binNamed = guestBinary(true, 0, 0, "")
 	binPlain = guestBinary(false, 0, 0, "")
 )
+
+// numFiles: files f0..f4 of the per-instance file system; file object index 0 is the mount's
+// root directory (opened lazily by the first path_open), 1+k is f<k>.
+const numFiles = 5
 
 // start functions: how a start function (ModuleConfig.WithStartFunctions, or "_start" by
 // default) ends.
@@ -180,6 +199,7 @@ type Op struct {
 	Var      int    `json:"var,omitempty"`      // compile: binary variant (>0)
 	Start    string `json:"start,omitempty"`    // inst: name of the start function (startSpec); "" = none
 	DefStart bool   `json:"defstart,omitempty"` // inst+frombin+start: exported as "_start", ModuleConfig start functions left at the default
+	Bad      int    `json:"bad,omitempty"`      // inst: bit i set = file objects of index i (0 root dir, 1+k = f<k>) fail on Close with EIO
 	Hold     bool   `json:"hold,omitempty"`     // callctx in flight: the guest stays parked in the host function until a later "release" of this operation
 	NoNotif  bool   `json:"nonotif,omitempty"`  // inst/hostinst: no CloseNotifier in the context
 	Y        int    `json:"y,omitempty"`        // concurrent: yield spec before the operation
@@ -200,6 +220,7 @@ const (
 	kRtClose     = "rtclose"
 	kRtCloseC    = "rtclosec"
 	kCallCtx     = "callctx" // call export "wait" with a context that ends (Var: how); needs WithCloseOnContextDone
+	kOpen        = "open"    // the guest of slot H opens file f<Var> of its file system through WASI path_open
 	kRelease     = "release" // let the guest parked by callctx operation H return and collect the result of its call
 )
 
@@ -226,6 +247,9 @@ func (o Op) String() string {
 				st += " as _start"
 			}
 		}
+		if o.Bad != 0 {
+			st += fmt.Sprintf(" files-failing-on-close:%06b", o.Bad)
+		}
 		return fmt.Sprintf("%s(bin:%s, %s%s) [effective name %q]", via, n, cfg, st, o.effName())
 	case kLookup:
 		return fmt.Sprintf("Runtime.Module(%q)", o.Name)
@@ -246,6 +270,8 @@ func (o Op) String() string {
 		return fmt.Sprintf("slot%d.ExportedFunction(wait).Call(ctx %s%s)", o.H, how, hold)
 	case kRelease:
 		return fmt.Sprintf("release the guest parked by #%d and collect its call", o.H)
+	case kOpen:
+		return fmt.Sprintf("slot%d guest: path_open(f%d)", o.H, o.Var%numFiles)
 	case kCompile:
 		return fmt.Sprintf("Runtime.CompileModule(variant %d)", o.Var)
 	case kHostInst:
@@ -328,6 +354,60 @@ type attempt struct {
 	code    atomic.Uint32
 	allocs  atomic.Int32
 	frees   atomic.Int32
+	bad     int // bit i: file objects of index i fail on Close with EIO
+	fmu     sync.Mutex
+	files   []*countFile // every file object the instance's file system handed out
+}
+
+// countFS is the file system mounted at "/" of one instance: its files count Close calls.
+type countFS struct {
+	experimentalsys.UnimplementedFS
+	a *attempt
+}
+
+func (c *countFS) OpenFile(path string, _ experimentalsys.Oflag, _ fs.FileMode) (experimentalsys.File, experimentalsys.Errno) {
+	k := -1
+	if path == "." || path == "" || path == "/" {
+		k = 0
+	} else if len(path) == 2 && path[0] == 'f' && path[1] >= '0' && path[1] < '0'+numFiles {
+		k = 1 + int(path[1]-'0')
+	}
+	if k < 0 {
+		return nil, experimentalsys.ENOENT
+	}
+	f := &countFile{k: k, dir: k == 0}
+	if c.a.bad&(1<<k) != 0 {
+		f.closeErr = experimentalsys.EIO
+	}
+	c.a.fmu.Lock()
+	c.a.files = append(c.a.files, f)
+	c.a.fmu.Unlock()
+	return f, 0
+}
+
+type countFile struct {
+	experimentalsys.UnimplementedFile
+	k        int
+	dir      bool
+	closeErr experimentalsys.Errno
+	closes   atomic.Int32
+}
+
+func (f *countFile) IsDir() (bool, experimentalsys.Errno) { return f.dir, 0 }
+func (f *countFile) Close() experimentalsys.Errno {
+	f.closes.Add(1)
+	return f.closeErr
+}
+
+// fileCloses returns the Close count of every file object handed out so far.
+func (a *attempt) fileCloses() []int32 {
+	a.fmu.Lock()
+	defer a.fmu.Unlock()
+	r := make([]int32, len(a.files))
+	for i, f := range a.files {
+		r[i] = f.closes.Load()
+	}
+	return r
 }
 
 type modBox struct{ m api.Module }
@@ -485,6 +565,9 @@ func newEnv(engine string, nops int, closeOnDone bool) (*env, error) {
 	if err != nil {
 		return nil, fmt.Errorf("setup: env host module: %v", err)
 	}
+	if _, err = wasi_snapshot_preview1.Instantiate(ctx, rt); err != nil {
+		return nil, fmt.Errorf("setup: wasi: %v", err)
+	}
 	for i := 0; i < 2; i++ {
 		c, err := e.rt.CompileModule(ctx, binOf(i))
 		if err != nil {
@@ -587,7 +670,7 @@ func (e *env) exec(idx int, o Op, raw *api.Module) (r Res) {
 	ctx := e.ctx
 	switch o.K {
 	case kInst, kHostInst:
-		a := &attempt{op: idx, host: o.K == kHostInst, hasNote: !o.NoNotif, delay: o.ND}
+		a := &attempt{op: idx, host: o.K == kHostInst, hasNote: !o.NoNotif, delay: o.ND, bad: o.Bad}
 		e.mu.Lock()
 		e.attempts[idx] = a
 		e.mu.Unlock()
@@ -601,7 +684,8 @@ func (e *env) exec(idx int, o Op, raw *api.Module) (r Res) {
 			mod, err = e.rt.NewHostModuleBuilder(o.Name).NewFunctionBuilder().
 				WithFunc(func() uint32 { return 7 }).Export("hf").Instantiate(ictx)
 		} else {
-			cfg := wazero.NewModuleConfig()
+			cfg := wazero.NewModuleConfig().
+				WithFSConfig(wazero.NewFSConfig().(sysfs.FSConfig).WithSysFSMount(&countFS{a: a}, "/"))
 			defStart := ""
 			switch {
 			case o.Start == "":
@@ -651,6 +735,28 @@ func (e *env) exec(idx int, o Op, raw *api.Module) (r Res) {
 		}
 		if m != nil {
 			e.slots[idx].Store(modBox{m})
+		}
+	case kOpen:
+		m := e.slot(o.H)
+		if m == nil || isHostHandle(m) || m.IsClosed() {
+			r.Skip = true // WASI calls of a closed instance are not part of the domain
+			return
+		}
+		if raw != nil {
+			*raw = m
+		}
+		f := m.ExportedFunction("open")
+		if f == nil {
+			r.Err = "ExportedFunction(open) returned nil"
+			return
+		}
+		res, err := f.Call(ctx, uint64(o.Var%numFiles))
+		out := wz.Classify(err)
+		r.Kind = out.Kind
+		if out.Kind == wz.KOK && len(res) == 1 {
+			r.Val = res[0] // errno of path_open
+		} else {
+			r.Err = "open: " + out.String()
 		}
 	case kClose, kCloseC:
 		m := e.slot(o.H)
@@ -877,6 +983,9 @@ type mInst struct {
 	open    bool
 	code    uint32
 	pending int // calls of this instance whose guest is still parked in a host function
+	bad     int // Op.Bad of the instantiation
+	files   bool
+	badOpen bool // a file object that fails on Close is open
 }
 
 type seqModel struct {
@@ -923,7 +1032,7 @@ func (m *seqModel) step(idx int, o Op) (want Res) {
 			}
 			return
 		}
-		m.inst[idx] = &mInst{name: name, host: o.K == kHostInst, hasNote: !o.NoNotif, open: true}
+		m.inst[idx] = &mInst{name: name, host: o.K == kHostInst, hasNote: !o.NoNotif, open: true, bad: o.Bad}
 		if name != "" {
 			m.owner[name] = idx
 		}
@@ -980,11 +1089,26 @@ func (m *seqModel) step(idx int, o Op) (want Res) {
 			want.Inst = id
 			m.slot[idx] = id
 		}
+	case kOpen:
+		id, ok := m.slot[o.H]
+		if !ok || m.inst[id].host || !m.inst[id].open {
+			want.Skip = true
+			return
+		}
+		in := m.inst[id]
+		in.files = true
+		if in.bad&(1|1<<(1+o.Var%numFiles)) != 0 { // the first open also opens the root directory
+			in.badOpen = true
+		}
+		want.Kind, want.Val = wz.KOK, 0
 	case kClose, kCloseC:
 		id, ok := m.slot[o.H]
 		if !ok {
 			want.Skip = true
 			return
+		}
+		if in := m.inst[id]; in.open && in.badOpen {
+			want.Err = "?" // the close reports the I/O error of a file; everything is released all the same
 		}
 		m.closeInst(id, o.closeCode())
 	case kIsClosed:
@@ -1011,6 +1135,11 @@ func (m *seqModel) step(idx int, o Op) (want Res) {
 		}
 	case kRtClose, kRtCloseC:
 		if !m.rtClosed {
+			for _, in := range m.inst {
+				if in.open && in.badOpen {
+					want.Err = "?"
+				}
+			}
 			m.rtClosed, m.rtCode = true, o.closeCode()
 			for id := range m.inst {
 				m.closeInst(id, m.rtCode)
@@ -1026,6 +1155,9 @@ func sameRes(got, want Res) bool {
 	if got.Panic != "" {
 		return false
 	}
+	if want.Err == "?" { // an error may be reported
+		got.Err, want.Err = "", ""
+	}
 	if want.Err == "*" {
 		if want.Kind != "" && (got.Kind != want.Kind || got.Exit != want.Exit) {
 			return false
@@ -1033,6 +1165,20 @@ func sameRes(got, want Res) bool {
 		return got.Err != "" && !got.Skip
 	}
 	return got == want
+}
+
+func b2i(b bool) int {
+	if b {
+		return 1
+	}
+	return 0
+}
+
+func fileName(k int) string {
+	if k == 0 {
+		return "root directory of the mount"
+	}
+	return fmt.Sprintf("f%d", k-1)
 }
 
 // counters compares the notifier / allocator counters of every instantiation attempt with
@@ -1068,6 +1214,14 @@ func (m *seqModel) counters(e *env) string {
 		}
 		if wantNotes == 1 && a.notes.Load() == 1 && a.code.Load() != in.code {
 			return fmt.Sprintf("instance #%d (name %q): close notifier received exit code %d, the close that took effect had %d", id, in.name, a.code.Load(), in.code)
+		}
+		for i, n := range a.fileCloses() {
+			if want := 1 - b2i(in.open); n != int32(want) && !(deferred && n == 0) {
+				a.fmu.Lock()
+				k := a.files[i].k
+				a.fmu.Unlock()
+				return fmt.Sprintf("instance #%d (name %q, open=%v): file object %d (%s) that the guest opened was closed %d times, want %d", id, in.name, in.open, i, fileName(k), n, want)
+			}
 		}
 		wantAlloc, wantFree := int32(1), int32(0)
 		if in.host {
@@ -1200,7 +1354,11 @@ func (s *seqRun) finish() string {
 		var p any
 		func() {
 			defer func() { p = recover() }()
-			if err := s.e.rt.Close(s.e.ctx); err != nil {
+			errOK := false // a file that fails on Close may be open
+			for _, in := range s.m.inst {
+				errOK = errOK || (in.open && in.badOpen)
+			}
+			if err := s.e.rt.Close(s.e.ctx); err != nil && !errOK {
 				msg = "final Runtime.Close returned " + firstLine(err)
 			}
 		}()
@@ -1305,6 +1463,7 @@ func genSeqOp(t *rapid.T, s *seqRun) Op {
 	if len(m.parkedOp) > 0 {
 		kinds = append(kinds, kRelease, kRelease)
 	}
+	kinds = append(kinds, kOpen, kOpen, kOpen, kOpen)
 	for try := 0; ; try++ {
 		k := rapid.SampledFrom(kinds).Draw(t, "kind")
 		switch k {
@@ -1315,6 +1474,9 @@ func genSeqOp(t *rapid.T, s *seqRun) Op {
 			}
 			o.FromBin = rapid.IntRange(0, 4).Draw(t, "frombin") == 0
 			o.NoNotif = rapid.IntRange(0, 7).Draw(t, "nonotif") == 0
+			if rapid.Bool().Draw(t, "failing-file-closes") {
+				o.Bad = rapid.IntRange(1, 1<<(numFiles+1)-1).Draw(t, "bad-files")
+			}
 			if rapid.IntRange(0, 9).Draw(t, "with-start") >= 6 {
 				o.Start = rapid.SampledFrom(startNames).Draw(t, "start")
 				o.DefStart = o.FromBin && rapid.Bool().Draw(t, "as-_start")
@@ -1342,6 +1504,18 @@ func genSeqOp(t *rapid.T, s *seqRun) Op {
 				continue
 			}
 			return o
+		case kOpen:
+			// guests that are open (WASI calls of a closed instance are outside the domain)
+			var cand []int
+			for _, h := range held {
+				if in := m.inst[m.slot[h]]; in.open && !in.host {
+					cand = append(cand, h)
+				}
+			}
+			if len(cand) == 0 {
+				continue
+			}
+			return Op{K: kOpen, H: rapid.SampledFrom(cand).Draw(t, "slot"), Var: rapid.IntRange(0, numFiles-1).Draw(t, "file")}
 		case kClose, kCloseC, kIsClosed, kCall, kCallCtx:
 			if len(held) == 0 {
 				if try > 8 {
@@ -1483,6 +1657,19 @@ func seqStats(s *seqRun) (nontrivial bool, labels []string) {
 	sort.Strings(labels)
 	if ctxClose {
 		labels = append(labels, "seq-closed-by-context-done")
+	}
+	var files, badFiles bool
+	for _, in := range m.inst {
+		if in.files && !in.open {
+			files = true
+			badFiles = badFiles || in.badOpen
+		}
+	}
+	if files {
+		labels = append(labels, "seq-instance-closed-with-open-files")
+	}
+	if badFiles {
+		labels = append(labels, "seq-instance-closed-with-file-failing-on-close")
 	}
 	if parkedNamed {
 		labels = append(labels, "seq-named-guest-parked-in-host-when-closed-by-context")
